@@ -388,10 +388,10 @@ theorem code_matches_model :
        "if started { <-l.done }",
        "return nil"] ∧
     Gen.Listener.redisStop =
-      ["p.l.Stop()",
-       "p.u.Stop()",
-       "p.wg.Wait()",
-       "return nil"] ∧
+      ["p.u.Stop()",
+      "p.l.Stop()",
+      "p.wg.Wait()",
+      "return nil"] ∧
     Gen.Listener.tcpStop =
       ["p.quitOnce.Do(func() { close(p.quit) })",
        "p.hm.Stop()",
